@@ -69,6 +69,8 @@ def key_json(k):
         return ["i", a]
     if isinstance(a, float):
         return ["f", int(a * 2)]
+    if isinstance(a, bytes):
+        return ["y", a.decode("latin-1")]
     return ["s", a]
 
 
@@ -84,6 +86,8 @@ def key_unjson(j):
         return ("k", int(j[1]))
     if t == "f":
         return ("k", j[1] / 2)
+    if t == "y":
+        return ("k", j[1].encode("latin-1"))
     return ("k", j[1])
 
 
@@ -96,8 +100,12 @@ def str_ok(s):
     return not ("'" in s and '"' in s) and not s.endswith(ESC)
 
 
+def has_bytes(ks):
+    return any(isinstance(a, bytes) for _t, a in ks)
+
+
 def path_ok(ks):
-    return all(not isinstance(a, str) or str_ok(a) for _t, a in ks)
+    return all(not isinstance(a, bytes) and (not isinstance(a, str) or str_ok(a)) for _t, a in ks)
 
 
 SIB_KEYS = ["sib", 7, None, "x y", 2.5, "a", 0, True, "'", '"', "[0]", "root", ESC + "z"]
@@ -253,6 +261,9 @@ def all_strings(maxlen):
 NONSTR = [None, True, False, 0, 1, -1, 2, 10, -12, 123456789, 0.5, -0.5, 1.5, 2.0, 0.0, -3.0, 100.5, 1e15 + 0.5]
 
 
+BYTES_KEYS = [b"ab", b"", b" ", b"a'b", b'a"b', b"a'\"", b"\xff", b"a\\b", b"\n", b"\x01", b"[0]", b"root", b"__x", b"a]['b", b"1", b"~\x7f"]
+
+
 def gen_key(rng, pool):
     r = rng.random()
     if r < 0.45:
@@ -264,6 +275,8 @@ def gen_key(rng, pool):
         return ("x", rng.randint(0, 4))
     if r < 0.70:
         return ("k", rng.choice(["root", "__a", "__", "root['a']", "a.b", "[0]", "0", "-1", "1.5", "None", "True", "b'a'", "r'a'", " 1", "", "中文", "a b"]))
+    if r < 0.76:
+        return ("k", rng.choice(BYTES_KEYS))
     a = rng.choice(NONSTR)
     if isinstance(a, int) and not isinstance(a, bool) and rng.random() < 0.3:
         a = rng.randint(-10 ** 12, 10 ** 12)
@@ -285,7 +298,11 @@ def run_sequences(ctx, name, seqs):
         ctx.seen((tuple(map(tuple, map(key_json, ks))), sib_seed), nontrivial=bool(ks))
         ctx.count("%s:%s" % (name, "inside_guard" if ok else "outside_guard"))
         ctx.count("depth:%d" % len(ks))
-        if why:
+        if why and has_bytes(ks):
+            # bytes keys are outside C09's quantifier: the model must agree with the code on
+            # them (correspondence below) but their round-trip failures are not reported
+            ctx.count("%s:bytes_key_roundtrip_failure(outside the property's universe)" % name)
+        elif why:
             r = ctx.fail(case_dict(ks, sib_seed, why), why)
             if r == "known" and ok:
                 # a failure inside the proved guard can never be a known finding
